@@ -224,6 +224,24 @@ func c08(args []string) error {
 			if e != nil {
 				continue
 			}
+			if r.Intn(3) == 0 {
+				// many sequences and an early failure: far more pairs are still to be produced than any channel
+				// buffer holds when the last worker leaves
+				nbig := 18 + r.Intn(14)
+				bn, bs := make([]string, nbig), make([]string, nbig)
+				for q := range bn {
+					bn[q] = fmt.Sprintf("b%d", q)
+					bs[q] = randSeq(r, 6, func(r *rand.Rand) byte { return "ACGT"[r.Intn(4)] })
+				}
+				if big, e2 := mkAlign(align.NUCLEOTIDS, bn, bs); e2 == nil {
+					a = big
+					npairs = nbig * (nbig - 1) / 2
+					k = 1 + r.Intn(12)
+					if r.Intn(2) == 0 {
+						cpus = 1
+					}
+				}
+			}
 			m, _ := dna.Model(c07Models[cs.model], cs.rmgaps)
 			fm := &failingModel{DistModel: m, k: int64(k), from: from}
 			done := make(chan error, 1)
